@@ -308,7 +308,8 @@ func (p *Prop) Execute(c *sim.Case, env *sim.Env) *sim.Result {
 			if len(d.data) > 0 && len(img) > len(d.data) {
 				ratio = int64(len(img)/len(d.data)) + 1
 			}
-			budget := 300*base[op].steps*ratio + 200_000_000
+			// (squared: walking a subtree once per nesting level is quadratic and still terminates)
+			budget := 300*base[op].steps*ratio*ratio + 200_000_000
 			var h uint64
 			var inj *injector
 			if inflight {
